@@ -212,10 +212,21 @@ impl From<(InsertionContext, Option<TelemetryMetrics>)> for Solution {
         let cost = insertion_ctx.get_total_cost().unwrap_or_default();
         let solution_ctx = insertion_ctx.solution;
 
+        // NOTE: do not return tours without jobs (e.g. the last job can be removed on solution state acceptance)
+        let mut registry = solution_ctx.registry.resources().deep_copy();
+        solution_ctx.routes.iter().filter(|rc| !rc.route.tour.has_jobs()).for_each(|rc| {
+            registry.free_actor(&rc.route.actor);
+        });
+
         Solution {
             cost,
-            registry: solution_ctx.registry.resources().deep_copy(),
-            routes: solution_ctx.routes.iter().map(|rc| rc.route.deep_copy()).collect(),
+            registry,
+            routes: solution_ctx
+                .routes
+                .iter()
+                .filter(|rc| rc.route.tour.has_jobs())
+                .map(|rc| rc.route.deep_copy())
+                .collect(),
             unassigned: solution_ctx
                 .unassigned
                 .iter()
